@@ -478,6 +478,29 @@ def cover(ctx, facts):
                 sz_lo = flow.strip_casts(lo_[3]) if flow.strip_casts(lo_[2]) == iv else flow.strip_casts(lo_[2])
                 sz_hi = flow.strip_casts(hi_[3]) if flow.strip_casts(hi_[2]) == ("bin", "Add", iv, ("const", 1)) else flow.strip_casts(hi_[2])
                 oks = sz_lo == sz_hi
+            if not oks and iv is not None:
+                # by evaluation: with the loop index i and the element size as symbols, lo = size*i and hi = size*(i+1)
+                # (`start = sz * i; start..start + sz` and the like)
+                from rules.C13 import ieval, NoEval
+
+                def atoms(e):
+                    e = flow.strip_casts(e)
+                    if e == iv or (e[0] == "const" and isinstance(e[1], int)):
+                        return set()
+                    if e[0] == "bin":
+                        return atoms(e[2]) | atoms(e[3])
+                    return {e}
+                at = atoms(lo_) | atoms(hi_)
+                try:
+                    if len(at) <= 1:
+                        good = True
+                        for sv in (5, 7):
+                            env = {a_: sv for a_ in at}
+                            c = ieval(hi_, {**env, iv: 0}) - ieval(lo_, {**env, iv: 0})
+                            good = good and c > 0 and (not at or c == sv) and all(ieval(lo_, {**env, iv: k_}) == c * k_ and ieval(hi_, {**env, iv: k_}) == c * (k_ + 1) for k_ in (0, 1, 3, 6))
+                        oks = good
+                except NoEval:
+                    pass
             ctx.ob("COVER", f"{name}:loop-stride", oks, "element i occupies bytes sz*i..sz*(i+1)" if oks else "the per-element byte range is not sz*i..sz*(i+1): elements overlap or leave gaps", site_of(x, bb))
         elif const_ranges:
             rs = []
